@@ -556,7 +556,7 @@ theorem cast_sc_sc (D S : IntTy) (eD eS : Int) (ρ : Nat) (v : Int) :
 
 theorem neg_sc (L : IntTy) (e : Int) (ρ : Nat) (l : Int) :
     Layered.un .neg (sc L e ρ l) = wrapAt e ρ (cNeg (L, l)) := by
-  simp only [Layered.un, unWith, unRep, Ty.depth, ops, intOps, liftTV, wrapAt]
+  show Res.map _ (Res.map _ (cNeg (L, l))) = Res.map _ (cNeg (L, l))
   cases cNeg (L, l) <;> rfl
 
 /-- conversion of a scaled integer with a built-in representation -/
@@ -569,5 +569,440 @@ theorem convert_eq (D S : IntTy) (eD eS : Int) (ρ : Nat) (v : Int) :
   · rfl
   · simp only [intOps, liftTV]
     cases scaleInt (eS - eD) ρ (S, v) <;> rfl
+
+/-! ## the built-in ring operators `+ - *` -/
+
+open Cnl.Elastic (AOp.toBin)
+
+/-- `+`, `-`, `*` -/
+def IsRing (op : AOp) : Prop := op = .add ∨ op = .sub ∨ op = .mul
+
+theorem cBin_ring_eq (op : AOp) (hop : IsRing op) (A B : IntTy) (a b : Int) :
+    cBin (AOp.toBin op) (A, a) (B, b)
+      = arith (usualArith A B) (exact op ((usualArith A B).wrap a) ((usualArith A B).wrap b)) := by
+  rcases hop with h | h | h <;> subst h <;> rfl
+
+theorem wrap_exact_wrap (T : IntTy) (op : AOp) (hop : IsRing op) (a b : Int) :
+    T.wrap (exact op (T.wrap a) (T.wrap b)) = T.wrap (exact op a b) := by
+  rcases hop with h | h | h <;> subst h
+  · exact wrap_add_wrap T a b
+  · exact wrap_sub_wrap T a b
+  · exact wrap_mul_wrap T a b
+
+/-- signed common type holding both operands: defined exactly when the exact result fits -/
+theorem cBin_ring_signed (op : AOp) (hop : IsRing op) {A B T : IntTy} (hT : usualArith A B = T)
+    (hs : T.signed = true) {a b : Int} (ha : T.InRange a) (hb : T.InRange b) :
+    cBin (AOp.toBin op) (A, a) (B, b)
+      = if T.InRange (exact op a b) then .ok (T, exact op a b) else .ub .signedOverflow := by
+  have hbits : 1 ≤ T.bits := by rw [← hT]; exact usualArith_bits_pos A B
+  rw [cBin_ring_eq op hop, hT, IntTy.wrap_id hbits ha, IntTy.wrap_id hbits hb, arith_signed hs]
+
+/-- unsigned common type: the operation wraps -/
+theorem cBin_ring_unsigned (op : AOp) (hop : IsRing op) {A B T : IntTy} (hT : usualArith A B = T)
+    (hs : T.signed = false) (a b : Int) :
+    cBin (AOp.toBin op) (A, a) (B, b) = .ok (T, T.wrap (exact op a b)) := by
+  rw [cBin_ring_eq op hop, hT, arith_unsigned hs, wrap_exact_wrap T op hop]
+
+/-- the exact result whenever it fits (and, for a signed common type, the operands do) -/
+theorem cBin_ring_exact (op : AOp) (hop : IsRing op) {A B T : IntTy} (hT : usualArith A B = T)
+    {a b : Int} (hs : T.signed = true → T.InRange a ∧ T.InRange b) (he : T.InRange (exact op a b)) :
+    cBin (AOp.toBin op) (A, a) (B, b) = .ok (T, exact op a b) := by
+  have hbits : 1 ≤ T.bits := by rw [← hT]; exact usualArith_bits_pos A B
+  cases h : T.signed with
+  | true => rw [cBin_ring_signed op hop hT h (hs h).1 (hs h).2]; simp only [he, ite_true]
+  | false => rw [cBin_ring_unsigned op hop hT h, IntTy.wrap_id hbits he]
+
+/-! ## alignment -/
+
+theorem aligned_self (ρ : Nat) (e : Int) (v : Int) : aligned ρ e e v = v := by
+  unfold aligned; rw [Int.sub_self]; simp [pw_zero]
+
+theorem aligned_of_eq (ρ : Nat) {e c : Int} (h : e = c) (v : Int) : aligned ρ e c v = v := by
+  subst h; exact aligned_self ρ e v
+
+/-- re-expressing twice is re-expressing once -/
+theorem aligned_aligned (ρ : Nat) {e c b : Int} (h1 : c ≤ e) (h2 : b ≤ c) (v : Int) :
+    aligned ρ c b (aligned ρ e c v) = aligned ρ e b v := by
+  unfold aligned
+  have : (e - b).toNat = (e - c).toNat + (c - b).toNat := by omega
+  rw [this, pw_add, Int.mul_assoc]
+
+theorem aligned_add (ρ : Nat) (e c : Int) (v w : Int) : aligned ρ e c (v + w) = aligned ρ e c v + aligned ρ e c w := by
+  unfold aligned; exact Int.add_mul ..
+
+theorem aligned_sub (ρ : Nat) (e c : Int) (v w : Int) : aligned ρ e c (v - w) = aligned ρ e c v - aligned ρ e c w := by
+  unfold aligned; exact Int.sub_mul ..
+
+theorem aligned_neg (ρ : Nat) (e c : Int) (v : Int) : aligned ρ e c (-v) = -aligned ρ e c v := by
+  unfold aligned; exact Int.neg_mul ..
+
+/-- the type in which an aligned operand reaches the representation operator: its own type if no
+scaling is needed at all (equal exponents), else the promoted type (the type of `rep * power`) -/
+def alTy (S : IntTy) (eL eR : Int) : IntTy := if eL = eR then S else promote S
+
+theorem usualArith_alTy (L R : IntTy) (eL eR : Int) :
+    usualArith (alTy L eL eR) (alTy R eL eR) = usualArith L R := by
+  unfold alTy; split
+  · rfl
+  · exact usualArith_promote L R
+
+/-- zero-degree operators (`+ -`): if both alignments are well-formed and fit the promoted types,
+the scaled operator is the built-in operator on the aligned representations -/
+theorem bin_aligned (op : AOp) (hop : op = .add ∨ op = .sub) (L R : IntTy) (hL : 1 ≤ L.bits) (hR : 1 ≤ R.bits)
+    (eL eR : Int) (ρ : Nat) (hρ : 2 ≤ ρ) (l r : Int) (hl : L.InRange l) (hr : R.InRange r)
+    (hwL : PowOk L (eL - min eL eR).toNat ρ) (hwR : PowOk R (eR - min eL eR).toNat ρ)
+    (hal : (promote L).InRange (aligned ρ eL (min eL eR) l))
+    (har : (promote R).InRange (aligned ρ eR (min eL eR) r)) :
+    Layered.bin (AOp.toBin op) (sc L eL ρ l) (sc R eR ρ r)
+      = wrapAt (min eL eR) ρ (cBin (AOp.toBin op) (alTy L eL eR, aligned ρ eL (min eL eR) l)
+                                               (alTy R eL eR, aligned ρ eR (min eL eR) r)) := by
+  have hz : Scaled.isZeroDegree (AOp.toBin op) = true := by rcases hop with h | h <;> subst h <;> rfl
+  have hre : Scaled.resultExp (AOp.toBin op) eL eR = min eL eR := by rcases hop with h | h <;> subst h <;> rfl
+  have hb : Layered.bin (AOp.toBin op) (sc L eL ρ l) (sc R eR ρ r)
+      = (Scaled.binOp intOps (AOp.toBin op) ρ ⟨(.int L, l), eL⟩ ⟨(.int R, r), eR⟩).map (wrapSc ρ) := by
+    rw [bin_sc_sc]; rcases hop with h | h <;> subst h <;> rfl
+  rw [hb]
+  by_cases he : eL = eR
+  · rw [binOp_direct _ _ _ _ _ _ _ _ (Or.inl he), hre]
+    have h1 : eL = min eL eR := by omega
+    have h2 : eR = min eL eR := by omega
+    simp only [alTy, he, ite_true]
+    rw [aligned_of_eq ρ (by omega) l, aligned_of_eq ρ (by omega) r]
+  · rw [binOp_aligned _ _ _ _ _ _ _ _ he hz]
+    unfold aligned at hal har ⊢
+    rw [scaleInt_up L hL _ (by omega) ρ hρ hwL l hl hal, scaleInt_up R hR _ (by omega) ρ hρ hwR r hr har]
+    simp only [alTy, he, ite_false]
+    rfl
+
+/-- `+ -` with signed promoted representations: the evaluation is defined exactly when the aligned
+operands fit their promoted types and the exact result fits the common type -/
+theorem bin_signed_guard (op : AOp) (hop : op = .add ∨ op = .sub) (L R : IntTy) (hL : 1 ≤ L.bits) (hR : 1 ≤ R.bits)
+    (eL eR : Int) (ρ : Nat) (hρ : 2 ≤ ρ) (l r : Int) (hl : L.InRange l) (hr : R.InRange r)
+    (hwL : PowOk L (eL - min eL eR).toNat ρ) (hwR : PowOk R (eR - min eL eR).toNat ρ)
+    (hsL : (promote L).signed = true) (hsR : (promote R).signed = true) :
+    Layered.bin (AOp.toBin op) (sc L eL ρ l) (sc R eR ρ r)
+      = if (promote L).InRange (aligned ρ eL (min eL eR) l) ∧ (promote R).InRange (aligned ρ eR (min eL eR) r)
+            ∧ (usualArith L R).InRange (exact op (aligned ρ eL (min eL eR) l) (aligned ρ eR (min eL eR) r))
+        then .ok (sc (usualArith L R) (min eL eR) ρ (exact op (aligned ρ eL (min eL eR) l) (aligned ρ eR (min eL eR) r)))
+        else .ub .signedOverflow := by
+  have hring : IsRing op := by rcases hop with h | h <;> simp [IsRing, h]
+  have hTs := usualArith_signed hsL hsR
+  by_cases hal : (promote L).InRange (aligned ρ eL (min eL eR) l)
+  · by_cases har : (promote R).InRange (aligned ρ eR (min eL eR) r)
+    · rw [bin_aligned op hop L R hL hR eL eR ρ hρ l r hl hr hwL hwR hal har,
+        cBin_ring_signed op hring (usualArith_alTy L R eL eR) hTs
+          (inRange_common_left hal (Or.inl hTs)) (inRange_common_right har (Or.inl hTs))]
+      simp only [hal, har, true_and]
+      split <;> rfl
+    · -- the right alignment overflows
+      have he : eL ≠ eR := by
+        intro he; apply har; rw [aligned_of_eq ρ (by omega) r]; exact promote_inRange hR hr
+      have hz : Scaled.isZeroDegree (AOp.toBin op) = true := by rcases hop with h | h <;> subst h <;> rfl
+      have hb : Layered.bin (AOp.toBin op) (sc L eL ρ l) (sc R eR ρ r)
+          = (Scaled.binOp intOps (AOp.toBin op) ρ ⟨(.int L, l), eL⟩ ⟨(.int R, r), eR⟩).map (wrapSc ρ) := by
+        rw [bin_sc_sc]; rcases hop with h | h <;> subst h <;> rfl
+      rw [hb, binOp_aligned _ _ _ _ _ _ _ _ he hz]
+      unfold aligned at hal har ⊢
+      rw [scaleInt_up L hL _ (by omega) ρ hρ hwL l hl hal,
+        scaleInt_up_signed R hR _ (by omega) ρ hρ hwR r hr hsR]
+      simp only [har, hal, ite_false, false_and, and_false]
+      rfl
+  · have he : eL ≠ eR := by
+      intro he; apply hal; rw [aligned_of_eq ρ (by omega) l]; exact promote_inRange hL hl
+    have hz : Scaled.isZeroDegree (AOp.toBin op) = true := by rcases hop with h | h <;> subst h <;> rfl
+    have hb : Layered.bin (AOp.toBin op) (sc L eL ρ l) (sc R eR ρ r)
+        = (Scaled.binOp intOps (AOp.toBin op) ρ ⟨(.int L, l), eL⟩ ⟨(.int R, r), eR⟩).map (wrapSc ρ) := by
+      rw [bin_sc_sc]; rcases hop with h | h <;> subst h <;> rfl
+    rw [hb, binOp_aligned _ _ _ _ _ _ _ _ he hz]
+    unfold aligned at hal ⊢
+    rw [scaleInt_up_signed L hL _ (by omega) ρ hρ hwL l hl hsL]
+    simp only [hal, ite_false, false_and]
+    rfl
+
+/-- an operand value is a value of the common type when that is signed -/
+theorem inRange_common_of_left {L R : IntTy} (hL : 1 ≤ L.bits) {l : Int} (hl : L.InRange l)
+    (hs : (usualArith L R).signed = true ∨ 0 ≤ l) : (usualArith L R).InRange l :=
+  inRange_common_left (promote_inRange hL hl) hs
+
+theorem inRange_common_of_right {L R : IntTy} (hR : 1 ≤ R.bits) {r : Int} (hr : R.InRange r)
+    (hs : (usualArith L R).signed = true ∨ 0 ≤ r) : (usualArith L R).InRange r :=
+  inRange_common_right (promote_inRange hR hr) hs
+
+/-- `* / %`: the built-in operator on the two representations, exponent by the operator's rule -/
+theorem bin_direct (op : AOp) (hop : op = .mul ∨ op = .div ∨ op = .mod) (L R : IntTy)
+    (eL eR : Int) (ρ : Nat) (l r : Int) :
+    Layered.bin (AOp.toBin op) (sc L eL ρ l) (sc R eR ρ r)
+      = wrapAt (Scaled.resultExp (AOp.toBin op) eL eR) ρ (cBin (AOp.toBin op) (L, l) (R, r)) := by
+  have hz : Scaled.isZeroDegree (AOp.toBin op) = false := by rcases hop with h | h | h <;> subst h <;> rfl
+  have hb : Layered.bin (AOp.toBin op) (sc L eL ρ l) (sc R eR ρ r)
+      = (Scaled.binOp intOps (AOp.toBin op) ρ ⟨(.int L, l), eL⟩ ⟨(.int R, r), eR⟩).map (wrapSc ρ) := by
+    rw [bin_sc_sc]; rcases hop with h | h | h <;> subst h <;> rfl
+  rw [hb, binOp_direct _ _ _ _ _ _ _ _ (Or.inr hz)]
+
+/-- `*`: exact whenever the product fits the common type -/
+theorem bin_mul_exact (L R : IntTy) (hL : 1 ≤ L.bits) (hR : 1 ≤ R.bits) (eL eR : Int) (ρ : Nat)
+    (l r : Int) (hl : L.InRange l) (hr : R.InRange r)
+    (hres : (usualArith L R).InRange (l * r)) :
+    Layered.bin .mul (sc L eL ρ l) (sc R eR ρ r) = .ok (sc (usualArith L R) (eL + eR) ρ (l * r)) := by
+  have h := bin_direct .mul (Or.inl rfl) L R eL eR ρ l r
+  have hring : IsRing .mul := by simp [IsRing]
+  rw [show AOp.toBin .mul = BinOp.mul from rfl] at h
+  rw [h, show BinOp.mul = AOp.toBin .mul from rfl, cBin_ring_exact .mul hring rfl
+      (fun hs => ⟨inRange_common_of_left hL hl (Or.inl hs), inRange_common_of_right hR hr (Or.inl hs)⟩) hres]
+  rfl
+
+/-! ## `/` and `%` -/
+
+theorem lowest_eq_of {T : IntTy} (h32 : 32 ≤ T.bits) {a : Int} (ha : T.InRange a) (h : a = -T.max - 1) :
+    T.signed = true ∧ a = T.lowest := by
+  have ⟨hlh, hhi⟩ := lo_hi T h32
+  have h1 := ha.1
+  rcases hlh with h0 | h0
+  · omega
+  · refine ⟨?_, by omega⟩
+    apply Decidable.byContradiction; intro hs
+    have : T.lowest = 0 := by unfold IntTy.lowest; simp [hs]
+    omega
+
+theorem tmod_inRange {T : IntTy} {a b : Int} (ha : T.InRange a) (hb0 : b ≠ 0) : T.InRange (a.tmod b) := by
+  have hz := zero_le_max T
+  have hf := tdiv_tmod_facts a b hb0
+  unfold IntTy.InRange at *
+  by_cases h0 : 0 ≤ a
+  · have := hf.2.1 h0; omega
+  · have := hf.2.2.1 (by omega); omega
+
+/-- the product `quotient * divisor` lies between `0` and the dividend -/
+theorem tdiv_mul_inRange {T : IntTy} {a b : Int} (ha : T.InRange a) (hb0 : b ≠ 0) : T.InRange (a.tdiv b * b) := by
+  have hz := zero_le_max T
+  have hf := tdiv_tmod_facts a b hb0
+  rw [Int.mul_comm] at hf
+  unfold IntTy.InRange at *
+  by_cases h0 : 0 ≤ a
+  · have := hf.2.1 h0; omega
+  · have := hf.2.2.1 (by omega); omega
+
+section divmod
+variable {L R : IntTy} {l r : Int}
+
+/-- the C02 guard: the usual arithmetic conversions keep both values, the divisor is not zero and
+the quotient is not the overflowing `lowest / -1` -/
+structure DivGuard (L R : IntTy) (l r : Int) : Prop where
+  wl : (usualArith L R).wrap l = l
+  wr : (usualArith L R).wrap r = r
+  r0 : r ≠ 0
+  nov : ¬ ((usualArith L R).signed = true ∧ l = (usualArith L R).lowest ∧ r = -1)
+
+theorem DivGuard.inl (g : DivGuard L R l r) : (usualArith L R).InRange l :=
+  (wrap_eq_self_iff _ (usualArith_bits_pos L R) l).1 g.wl
+theorem DivGuard.inr (g : DivGuard L R l r) : (usualArith L R).InRange r :=
+  (wrap_eq_self_iff _ (usualArith_bits_pos L R) r).1 g.wr
+
+theorem DivGuard.tdiv_inRange (g : DivGuard L R l r) : (usualArith L R).InRange (l.tdiv r) := by
+  apply Rounding.tdiv_inRange (usualArith_bits_ge L R) g.inl g.inr g.r0
+  intro ⟨h1, h2⟩
+  have := lowest_eq_of (usualArith_bits_ge L R) g.inl h1
+  exact g.nov ⟨this.1, this.2, h2⟩
+
+theorem cBin_div (g : DivGuard L R l r) : cBin .div (L, l) (R, r) = .ok (usualArith L R, l.tdiv r) := by
+  have nov := g.nov
+  simp only [cBin, g.wl, g.wr, g.r0, nov, ite_false]
+  exact arith_ok (usualArith_bits_pos L R) g.tdiv_inRange
+
+theorem cBin_mod (g : DivGuard L R l r) : cBin .mod (L, l) (R, r) = .ok (usualArith L R, l.tmod r) := by
+  have nov := g.nov
+  simp only [cBin, g.wl, g.wr, g.r0, nov, ite_false]
+  exact arith_ok (usualArith_bits_pos L R) (tmod_inRange g.inl g.r0)
+
+theorem bin_div (g : DivGuard L R l r) (eL eR : Int) (ρ : Nat) :
+    Layered.bin .div (sc L eL ρ l) (sc R eR ρ r) = .ok (sc (usualArith L R) (eL - eR) ρ (l.tdiv r)) := by
+  have h := bin_direct .div (Or.inr (Or.inl rfl)) L R eL eR ρ l r
+  rw [show AOp.toBin .div = BinOp.div from rfl] at h
+  rw [h, cBin_div g]; rfl
+
+theorem bin_mod (g : DivGuard L R l r) (eL eR : Int) (ρ : Nat) :
+    Layered.bin .mod (sc L eL ρ l) (sc R eR ρ r) = .ok (sc (usualArith L R) eL ρ (l.tmod r)) := by
+  have h := bin_direct .mod (Or.inr (Or.inr rfl)) L R eL eR ρ l r
+  rw [show AOp.toBin .mod = BinOp.mod from rfl] at h
+  rw [h, cBin_mod g]; rfl
+
+end divmod
+
+/-- `+` between equal exponents: the built-in operator on the representations -/
+theorem bin_add_same_exp (A B : IntTy) (e : Int) (ρ : Nat) (a b : Int) :
+    Layered.bin .add (sc A e ρ a) (sc B e ρ b) = wrapAt e ρ (cBin .add (A, a) (B, b)) := by
+  have hb : Layered.bin .add (sc A e ρ a) (sc B e ρ b)
+      = (Scaled.binOp intOps .add ρ ⟨(.int A, a), e⟩ ⟨(.int B, b), e⟩).map (wrapSc ρ) := by
+    rw [bin_sc_sc]
+  rw [hb, binOp_direct _ _ _ _ _ _ _ _ (Or.inl rfl)]
+  simp [Scaled.resultExp]
+
+theorem cmp_same_exp (op : CmpOp) (A B : IntTy) (e : Int) (ρ : Nat) (a b : Int) :
+    Layered.cmp op (sc A e ρ a) (sc B e ρ b) = .ok (cCmp op (A, a) (B, b)) := by
+  rw [cmp_sc_sc]; simp [Scaled.cmp, intOps]
+
+/-- the expression `(a/b)*b + a%b == a`, each operator evaluated by the model -/
+def divModIdentity (x y : Num) : Res Bool := do
+  let q ← Layered.bin .div x y
+  let p ← Layered.bin .mul q y
+  let rm ← Layered.bin .mod x y
+  let s ← Layered.bin .add p rm
+  Layered.cmp .eq s x
+
+theorem divModIdentity_true {L R : IntTy} {l r : Int} (hL : 1 ≤ L.bits) (hR : 1 ≤ R.bits)
+    (hr : R.InRange r) (g : DivGuard L R l r) (eL eR : Int) (ρ : Nat) :
+    divModIdentity (sc L eL ρ l) (sc R eR ρ r) = .ok true := by
+  have hT := usualArith_bits_pos L R
+  have habs := usualArith_absorb L R
+  simp only at habs
+  have hf := tdiv_tmod_facts l r g.r0
+  have hprod : (usualArith L R).InRange (l.tdiv r * r) := tdiv_mul_inRange g.inl g.r0
+  have hmul := bin_mul_exact (usualArith L R) R hT hR (eL - eR) eR ρ (l.tdiv r) r g.tdiv_inRange hr
+    (by rw [habs.2.1]; exact hprod)
+  rw [habs.2.1, Int.sub_add_cancel] at hmul
+  have hsum : l.tdiv r * r + l.tmod r = l := by rw [Int.mul_comm]; exact hf.1
+  have hadd : Layered.bin .add (sc (usualArith L R) eL ρ (l.tdiv r * r)) (sc (usualArith L R) eL ρ (l.tmod r))
+      = .ok (sc (usualArith L R) eL ρ l) := by
+    rw [bin_add_same_exp, show BinOp.add = AOp.toBin .add from rfl,
+      cBin_ring_exact .add (Or.inl rfl) habs.2.2.2.2
+        (fun _ => ⟨hprod, tmod_inRange g.inl g.r0⟩) (by simp only [exact]; rw [hsum]; exact g.inl)]
+    simp only [exact, hsum]; rfl
+  have hcmp : Layered.cmp .eq (sc (usualArith L R) eL ρ l) (sc L eL ρ l) = .ok true := by
+    rw [cmp_same_exp]
+    simp only [cCmp, habs.2.2.2.1, g.wl, decide_true]
+  unfold divModIdentity
+  rw [bin_div g]; simp only [Res.bind_ok]
+  rw [hmul]; simp only [Res.bind_ok]
+  rw [bin_mod g]; simp only [Res.bind_ok]
+  rw [hadd]; simp only [Res.bind_ok]
+  exact hcmp
+
+/-! ## comparison -/
+
+/-- the type in which an operand reaches the built-in comparison: the operand with the larger
+exponent is converted to `decltype(rep << constant<k>)`, the promoted type; the other is untouched -/
+def cmpTy (S : IntTy) (own other : Int) : IntTy := if other < own then promote S else S
+
+theorem usualArith_cmpTy (L R : IntTy) (eL eR : Int) :
+    usualArith (cmpTy L eL eR) (cmpTy R eR eL) = usualArith L R := by
+  unfold cmpTy
+  split <;> split <;>
+    first | rfl | exact usualArith_promote L R | exact usualArith_promote_left' L R | exact usualArith_promote_right L R
+
+/-- comparison: if the alignment of the operand with the larger exponent is well-formed and fits
+its promoted type, the result is the built-in comparison of the aligned representations -/
+theorem cmp_aligned (op : CmpOp) (L R : IntTy) (hL : 1 ≤ L.bits) (hR : 1 ≤ R.bits)
+    (eL eR : Int) (ρ : Nat) (hρ : 2 ≤ ρ) (l r : Int) (hl : L.InRange l) (hr : R.InRange r)
+    (hwL : PowOk L (eL - min eL eR).toNat ρ) (hwR : PowOk R (eR - min eL eR).toNat ρ)
+    (hal : (promote L).InRange (aligned ρ eL (min eL eR) l))
+    (har : (promote R).InRange (aligned ρ eR (min eL eR) r)) :
+    Layered.cmp op (sc L eL ρ l) (sc R eR ρ r)
+      = .ok (cCmp op (cmpTy L eL eR, aligned ρ eL (min eL eR) l) (cmpTy R eR eL, aligned ρ eR (min eL eR) r)) := by
+  rw [cmp_sc_sc]
+  unfold Scaled.cmp
+  by_cases he : eL = eR
+  · subst he
+    simp only [ite_true, intOps, cmpTy, Int.lt_irrefl, ite_false]
+    rw [aligned_of_eq ρ (by omega) l, aligned_of_eq ρ (by omega) r]
+  · simp only [he, ite_false]
+    by_cases hlt : eL < eR
+    · have hm : min eL eR = eL := by omega
+      rw [hm] at hwR har hal ⊢
+      have hgt : ¬ eR < eL := by omega
+      have hne : ¬ eR = eL := by omega
+      simp only [hlt, ite_true, Scaled.convert, hne, ite_false, intOps, liftTV, cmpTy, hgt]
+      unfold aligned at har
+      rw [scaleInt_up R hR _ (by omega) ρ hρ hwR r hr har]
+      simp only [Res.map, Res.bind_ok, bind, Res.bind, Cnl.convert, pure, IntTy.wrap_id (promote_bits_pos R) har]
+      rw [aligned_self]; rfl
+    · have hm : min eL eR = eR := by omega
+      rw [hm] at hwL har hal ⊢
+      have hgt : eR < eL := by omega
+      simp only [hlt, ite_false, Scaled.convert, he, intOps, liftTV, cmpTy, hgt, ite_true]
+      unfold aligned at hal
+      rw [scaleInt_up L hL _ (by omega) ρ hρ hwL l hl hal]
+      simp only [Res.map, Res.bind_ok, bind, Res.bind, Cnl.convert, pure, IntTy.wrap_id (promote_bits_pos L) hal]
+      rw [aligned_self]; rfl
+
+/-- the built-in comparison of two values the common type holds unchanged is the comparison of
+the values -/
+theorem cCmp_value (op : CmpOp) {A B T : IntTy} (hT : usualArith A B = T) (hb : 1 ≤ T.bits) {a b : Int}
+    (ha : T.InRange a) (hb' : T.InRange b) : cCmp op (A, a) (B, b) = cmpInt op a b := by
+  simp only [cCmp, hT, IntTy.wrap_id hb ha, IntTy.wrap_id hb hb']
+  cases op <;> rfl
+
+/-- in every case it is the comparison of the two *converted* values -/
+theorem cCmp_wrapped (op : CmpOp) (A B : IntTy) (a b : Int) :
+    cCmp op (A, a) (B, b) = cmpInt op ((usualArith A B).wrap a) ((usualArith A B).wrap b) := by
+  cases op <;> rfl
+
+theorem aligned_nonneg {ρ : Nat} (hρ : 2 ≤ ρ) (e c : Int) {v : Int} (h : 0 ≤ v) : 0 ≤ aligned ρ e c v := by
+  unfold aligned; exact Int.mul_nonneg h (Int.le_of_lt (pw_pos hρ _))
+
+/-- alignment multiplies by a positive number: it preserves and reflects order -/
+theorem aligned_lt_iff {ρ : Nat} (hρ : 2 ≤ ρ) (e c : Int) (v w : Int) : aligned ρ e c v < aligned ρ e c w ↔ v < w := by
+  unfold aligned
+  exact Int.mul_lt_mul_right (pw_pos hρ _)
+
+theorem aligned_inj {ρ : Nat} (hρ : 2 ≤ ρ) (e c : Int) (v w : Int) : aligned ρ e c v = aligned ρ e c w ↔ v = w := by
+  unfold aligned
+  have := pw_pos hρ (e - c).toNat
+  exact ⟨fun h => Int.eq_of_mul_eq_mul_right (by omega) h, fun h => by rw [h]⟩
+
+theorem cmpInt_aligned {ρ : Nat} (hρ : 2 ≤ ρ) (op : CmpOp) (e c : Int) (v w : Int) :
+    cmpInt op (aligned ρ e c v) (aligned ρ e c w) = cmpInt op v w := by
+  have h1 := aligned_lt_iff hρ e c v w
+  have h2 := aligned_lt_iff hρ e c w v
+  have h3 := aligned_inj hρ e c v w
+  cases op <;> simp only [cmpInt, decide_eq_decide] <;> omega
+
+/-! ## conversion -/
+
+theorem scaleTrunc_zero (ρ : Nat) (v : Int) : scaleTrunc ρ 0 v = v := by
+  simp [scaleTrunc, pw_zero]
+
+/-- the well-formedness and intermediate-fit condition of a conversion by `k = eS - eD` digits -/
+def CvtOk (S : IntTy) (k : Int) (ρ : Nat) (v : Int) : Prop :=
+  if 0 ≤ k then PowOk S k.toNat ρ ∧ (promote S).InRange (v * pw ρ k.toNat) else PowFits S (-k).toNat ρ
+
+instance (S : IntTy) (k : Int) (ρ : Nat) (v : Int) : Decidable (CvtOk S k ρ v) := by
+  unfold CvtOk; exact inferInstance
+
+/-- integer → integer conversion between scaled integers of one radix -/
+theorem cast_eval (D S : IntTy) (hS : 1 ≤ S.bits) (eD eS : Int) (ρ : Nat) (hρ : 2 ≤ ρ) (v : Int)
+    (hv : S.InRange v) (hok : CvtOk S (eS - eD) ρ v) :
+    Layered.cast (.sc (.int D) eD ρ) (sc S eS ρ v) = .ok (sc D eD ρ (D.wrap (scaleTrunc ρ (eS - eD) v))) := by
+  rw [cast_sc_sc, convert_eq]
+  unfold CvtOk at hok
+  by_cases he : eS = eD
+  · subst he
+    simp only [ite_true, Int.sub_self, scaleTrunc_zero]
+  · simp only [he, ite_false]
+    by_cases hk : 0 ≤ eS - eD
+    · simp only [hk, ite_true] at hok
+      rw [scaleInt_up S hS _ hk ρ hρ hok.1 v hv hok.2]
+      simp only [Res.bind_ok, scaleTrunc, hk, ite_true]
+    · simp only [hk, ite_false] at hok
+      rw [scaleInt_down S hS _ (by omega) ρ hρ hok v hv]
+      simp only [Res.bind_ok, scaleTrunc, hk, ite_false]
+
+/-- truncating division is rounding toward zero: the quotient has the sign of the dividend and
+`|dividend| - |quotient · divisor|` lies in `[0, divisor)` -/
+theorem tdiv_toward_zero (v p : Int) (hp : 0 < p) :
+    (0 ≤ v → 0 ≤ v.tdiv p ∧ v.tdiv p * p ≤ v ∧ v < v.tdiv p * p + p) ∧
+    (v ≤ 0 → v.tdiv p ≤ 0 ∧ v ≤ v.tdiv p * p ∧ v.tdiv p * p - p < v) := by
+  have hf := tdiv_tmod_facts v p (by omega)
+  rw [Int.mul_comm] at hf
+  have h3 := hf.2.2.2.1 hp
+  constructor
+  · intro h0
+    have := hf.2.1 h0
+    have := Int.tdiv_nonneg h0 (Int.le_of_lt hp)
+    omega
+  · intro h0
+    have := hf.2.2.1 h0
+    have := Int.tdiv_nonneg (a := -v) (b := p) (by omega) (Int.le_of_lt hp)
+    rw [Int.neg_tdiv] at this
+    omega
 
 end Cnl.ScaledP
